@@ -74,6 +74,14 @@ def pre_shootnew(shoot, mod, pair):
                 return
             text = files[0].read_text()
             pair.generated["new:" + files[0].name] = text
+            if n == spec["root"] or n == [j for j in spec["jobs"] if j["src"] == spec["root"]][0]["dst"]:
+                # instrumentation of the generated setters (not of shoot's output for `map`): record every call, so
+                # that "set exactly once" is observable
+                inst, cnt = re.subn(r"(func \(\w+ \*%s\) (Set\w+)\([^)]*\) \{\n)" % n,
+                                    lambda m: m.group(1) + '\tVerifCalls = append(VerifCalls, "%s")\n' % m.group(2), text)
+                inst += "\n// VerifCalls records setter calls (added by the verification harness)\nvar VerifCalls []string\n"
+                files[0].write_text(inst)
+                pair.setcalls = dict(getattr(pair, "setcalls", {}), **{side: True})
             ctor, accs = parse_shootnew(text, d, side)
             for j in spec["jobs"]:
                 if side == "src" and j["src"] == n:
